@@ -80,6 +80,10 @@ func (r R) NumText() string {
 	}
 	switch r.Pick("numshape", 10, 4, 3, 2, 2, 2) {
 	case 0:
+		if r.Intn(20, "legacyoctal") == 0 {
+			// legacy octal integer (sloppy-mode scripts): a leading zero and octal digits
+			return "0" + digits(1+r.Intn(4, "nlo"), "01234567", "")
+		}
 		return dec()
 	case 1:
 		return dec() + "." + digits(1+r.Intn(4, "nf"), "0123456789", "")
@@ -512,6 +516,21 @@ func (g *Syn) scaleUp(p *ir.Node) {
 		}
 		p.Kids = append(p.Kids, ir.N(ir.Let, long, StrOf(text, "\"")), ir.N(ir.ExprStmt, "", ir.N(ir.Assign, "=", id(long), ir.N(ir.Binary, "+", id(long), ir.N(ir.Num, "12345678901234567")))))
 	case 3: // many one-line statements with distinct names
+		if r.Intn(3, "flatlong") == 0 {
+			// a long flat file: more than a thousand statements with empty
+			// argument lists and empty array literals (resources that are taken
+			// per construct and must be given back per construct)
+			n := 1001 + r.Intn(1500, "nflat")
+			for i := 0; i < n; i++ {
+				if i%3 == 2 {
+					p.Kids = append(p.Kids, ir.N(ir.ExprStmt, "", ir.N(ir.Assign, "=", id("e"+strconv.Itoa(i%7)), ir.N(ir.Array, ""))))
+				} else {
+					p.Kids = append(p.Kids, ir.N(ir.ExprStmt, "", ir.N(ir.Call, "", id("tick"+strconv.Itoa(i%5)))))
+				}
+			}
+			p.Kids = append(p.Kids, ir.N(ir.ExprStmt, "", ir.N(ir.Call, "", id("last"), ir.N(ir.Array, "", id("a")), ir.N(ir.Binary, "*", id("b"), ir.N(ir.Binary, "+", id("c"), id("d"))))))
+			break
+		}
 		n := 40 + r.Intn(100, "nlines")
 		for i := 0; i < n; i++ {
 			name := "line" + strconv.Itoa(i)
